@@ -49,6 +49,9 @@ pub fn catalogue() -> Vec<(&'static str, &'static str)> {
         ("c_ed", "c_ed = {}"),
         ("c_d", "c_d = {\"a\": 1, 2: [3]}"),
         ("c_selfd", "c_selfd = {}\nc_selfd[\"me\"] = c_selfd"),
+        ("c_wrapd", "c_wrapd = [c_d]"),
+        ("c_wrapl", "c_wrapl = [c_l, c_self]"),
+        ("c_pairs", "c_pairs = [(1, c_d), (\"k\", c_selfd)]"),
         ("c_r", "c_r = range(3)"),
         ("c_fn", "def c_fn(x, y = 2): return x"),
         ("c_lam", "c_lam = lambda: 1"),
